@@ -990,3 +990,354 @@ func ruleTextPrimitives(p *Prog, r *Out) {
 		r.undecided("statusCodes", "?", "the status table no longer resolves")
 	}
 }
+
+// ---------------------------------------------------------------- client request and send shape
+
+func init() {
+	register(&Rule{
+		Name: "client-request-shape", Props: []string{"C02", "C07", "C18", "C12"}, Engine: "FDE", Floor: 20,
+		Doc: "the client's request writer emits :authority, :method, :path, :scheme (each taken from the request and appended right after it is set), then every regular field lower-cased and minus connection-specific ones; END_STREAM is on HEADERS exactly when there is no body (a stream, or at least one octet); stream ids come from nextID and advance by 2; a pending body is registered with the server's stream window; a stream slot is taken after a successful write and given back exactly when the request leaves the table; the send loop refills only when nothing is buffered, sends min(body, stream window, connection window) floored at 0, stops without sending only when nothing may go out and the body is not finished; a streamed chunk keeps every octet read, and the body is finished by EOF or by reaching its declared length; the handshake grants maxWindow-65535 connection credit, applies the server's first SETTINGS and acknowledges it once",
+		Run: ruleClientRequestShape,
+	})
+}
+
+func ruleClientRequestShape(p *Prog, r *Out) {
+	wr := p.decl("(*Conn).writeRequest")
+	if wr == nil {
+		r.undecided("(*Conn).writeRequest", "?", "no longer resolves")
+		return
+	}
+	r.fn("(*Conn).writeRequest", "(*Conn).sendPending", "(*Conn).refillPending", "(*pendingBody).hasMore", "(*Conn).finish", "(*Conn).doHandshake", "NewConn")
+	c := fdeCheck{p, r, p.pos(wr.Pos())}
+	// 1. pseudo-headers: SetBytes(StringX, src) immediately followed by AppendHeaderField(h, hf, true)
+	want := map[string]string{"StringAuthority": "req.URI().Host()", "StringMethod": "req.Header.Method()", "StringPath": "req.URI().RequestURI()", "StringScheme": "req.URI().Scheme()"}
+	seen := map[string]bool{}
+	list := wr.Body.List
+	for i, s := range list {
+		es, ok := s.(*ast.ExprStmt)
+		if !ok {
+			continue
+		}
+		cl, ok := es.X.(*ast.CallExpr)
+		if !ok || p.calleeOf(cl) != "(*HeaderField).SetBytes" || len(cl.Args) != 2 {
+			continue
+		}
+		name := p.text(cl.Args[0])
+		src, isPseudo := want[name]
+		if !isPseudo {
+			continue
+		}
+		emitted := false
+		if i+1 < len(list) {
+			if es2, ok := list[i+1].(*ast.ExprStmt); ok {
+				if c2, ok := es2.X.(*ast.CallExpr); ok && p.calleeOf(c2) == "(*HPACK).AppendHeaderField" && len(c2.Args) == 3 && p.text(c2.Args[0]) == "h" && p.text(c2.Args[1]) == "hf" {
+					emitted = true
+				}
+			}
+		}
+		seen[name] = true
+		r.check(squash(p.text(cl.Args[1])) == src && emitted, "request carries "+name, p.pos(cl.Pos()), "hf.SetBytes("+name+", "+src+"); enc.AppendHeaderField(h, hf, true)", fmt.Sprintf("the request's %s is taken from `%s` (expected %s) or is not appended to the header block right after it is set: the server sees a request without it, or with another value", name, p.text(cl.Args[1]), src))
+	}
+	for name := range want {
+		if !seen[name] {
+			r.bad("request carries "+name, c.pos, "writeRequest never sets "+name)
+		}
+	}
+	// 2. regular fields
+	var loop *ast.RangeStmt
+	for _, s := range list {
+		if rs, ok := s.(*ast.RangeStmt); ok && strings.Contains(p.text(rs.X), "req.Header.All()") {
+			loop = rs
+		}
+	}
+	if loop != nil {
+		order := []string{}
+		for _, s := range loop.Body.List {
+			switch x := s.(type) {
+			case *ast.ExprStmt:
+				if cl, ok := x.X.(*ast.CallExpr); ok {
+					switch p.calleeOf(cl) {
+					case "(*HeaderField).SetBytes":
+						if p.text(cl.Args[0]) == p.text(loop.Key) && p.text(cl.Args[1]) == p.text(loop.Value) {
+							order = append(order, "set")
+						}
+					case "ToLower":
+						if squash(p.text(cl.Args[0])) == "hf.key" {
+							order = append(order, "lower")
+						}
+					case "(*HPACK).AppendHeaderField":
+						if p.text(cl.Args[0]) == "h" && p.text(cl.Args[1]) == "hf" {
+							order = append(order, "emit")
+						}
+					}
+				}
+			case *ast.IfStmt:
+				if cl, ok := ast.Unparen(x.Cond).(*ast.CallExpr); ok && p.calleeOf(cl) == "isConnectionSpecific" && squash(p.text(cl.Args[0])) == "hf.key" {
+					if len(x.Body.List) == 1 {
+						if b, ok := x.Body.List[0].(*ast.BranchStmt); ok && b.Tok == token.CONTINUE {
+							order = append(order, "filter")
+						}
+					}
+				}
+			}
+		}
+		r.check(strings.Join(order, ",") == "set,lower,filter,emit", "regular fields: copied, lower-cased, filtered, appended", p.pos(loop.Pos()), "SetBytes(k,v); ToLower(hf.key); skip connection-specific; AppendHeaderField", "the per-field steps of the request writer are "+strings.Join(order, ",")+": a field is dropped, sent with an upper-case name, or a connection-specific field goes out (RFC 7540 s8.1.2)")
+	} else {
+		r.bad("regular fields: copied, lower-cased, filtered, appended", c.pos, "writeRequest no longer ranges over the request's header fields")
+	}
+	// 3./4. hasBody and flags
+	var hasBody ast.Expr
+	endStream, endHeaders := false, false
+	nextOK, limitOK := false, false
+	slotIdx, writeErrIdx := -1, -1
+	for i, s := range list {
+		switch x := s.(type) {
+		case *ast.AssignStmt:
+			if len(x.Lhs) == 1 && p.text(x.Lhs[0]) == "hasBody" {
+				hasBody = x.Rhs[0]
+			}
+		case *ast.ExprStmt:
+			if cl, ok := x.X.(*ast.CallExpr); ok {
+				switch p.calleeOf(cl) {
+				case "(*Headers).SetEndStream":
+					endStream = squash(p.text(cl.Args[0])) == "!hasBody"
+				case "(*Headers).SetEndHeaders":
+					endHeaders = p.text(cl.Args[0]) == "true"
+				case "atomic.StoreUint32":
+					if squash(p.text(cl.Args[0])) == "&c.nextID" && p.linOf(cl.Args[1], nil).eq(Lin{T: map[string]int64{"id": 1}, C: 2}) {
+						nextOK = true
+					}
+				case "atomic.AddInt32":
+					if squash(p.text(cl.Args[0])) == "&c.openStreams" {
+						if v, ok := p.intConst(cl.Args[1]); ok && v == 1 {
+							slotIdx = i
+						}
+					}
+				}
+			}
+		case *ast.IfStmt:
+			if cmp, ok := p.canonCmp(x.Cond, nil); ok && cmp.Op == "le" && len(cmp.L.T) == 1 && cmp.L.T["id"] == -1 {
+				if mx, ok := p.pkgConst("maxStreamID"); ok && cmp.L.C == mx+1 && isRejectingBody(p, x.Body) {
+					limitOK = true
+				}
+			}
+			if squash(p.text(x.Cond)) == "err!=nil" && isRejectingBody(p, x.Body) {
+				writeErrIdx = i
+			}
+		}
+	}
+	c.expr("request has a body iff streamed or non-empty", hasBody, fdeDomain{[]string{"bodyStream", "len(req.Body())"}, [][]int64{{0, 1}, seq(0, 3)}}, nil, func(e fdeEnv) int64 { return b2i(e["bodyStream"] != 0 || e["len(req.Body())"] != 0) }, "bodyStream || len(body) != 0", "a one-octet body must be sent, and an empty one must end the stream on HEADERS")
+	r.check(endStream && endHeaders, "HEADERS ends the stream iff there is no body", c.pos, "SetEndStream(!hasBody); SetEndHeaders(true)", "the request's HEADERS frame no longer carries END_STREAM exactly when there is no body (and END_HEADERS always)")
+	r.check(nextOK && limitOK, "stream ids advance by two and stop at 2^31-1", c.pos, "id > maxStreamID -> error; nextID = id+2", "the client no longer takes stream ids from nextID in steps of two, refusing to go past 2^31-1")
+	r.check(slotIdx > writeErrIdx && writeErrIdx >= 0, "stream slot taken only after the request was written", c.pos, "if err != nil { ... return err }; openStreams++", "the client counts a stream as open before (or without) knowing that its HEADERS were written: a failed write leaks a slot")
+	// 6. pending body registration
+	pbWin, drained, bodyBuf, stored := false, false, false, false
+	ast.Inspect(wr.Body, func(n ast.Node) bool {
+		switch x := n.(type) {
+		case *ast.KeyValueExpr:
+			if p.text(x.Key) == "window" && squash(p.text(x.Value)) == "c.streamWindow" {
+				pbWin = true
+			}
+		case *ast.AssignStmt:
+			if len(x.Lhs) != 1 {
+				return true
+			}
+			l := squash(p.text(x.Lhs[0]))
+			if l == "pb.drained" {
+				ok, _, _, folded := p.equivOver(x.Rhs[0], fdeDomain{[]string{"pb.size"}, [][]int64{{-1, 0, 1, 5}}}, nil, func(e fdeEnv) int64 { return b2i(e["pb.size"] == 0) })
+				drained = ok && folded
+			}
+			if l == "pb.body" && squash(p.text(x.Rhs[0])) == "req.Body()" {
+				bodyBuf = true
+			}
+			if l == "c.pending[id]" && p.text(x.Rhs[0]) == "pb" {
+				stored = true
+			}
+		}
+		return true
+	})
+	r.check(pbWin && drained && bodyBuf && stored, "pending body registered with the server's stream window", c.pos, "pendingBody{window: c.streamWindow}; drained = size == 0; body = req.Body(); c.pending[id] = pb", "the request body is no longer registered for sending with the server's initial stream window, its buffered octets (or its stream, finished only when declared empty)")
+	// 7. slot returned when the request leaves the table
+	if fd := p.decl("(*Conn).finish"); fd != nil {
+		ok := false
+		for _, s := range fd.Body.List {
+			if ifs, isIf := s.(*ast.IfStmt); isIf {
+				if cl, isC := ast.Unparen(ifs.Cond).(*ast.CallExpr); isC && p.calleeOf(cl) == "(*Conn).takeReq" {
+					inspectCalls(ifs.Body, func(c2 *ast.CallExpr) {
+						if p.calleeOf(c2) == "atomic.AddInt32" && squash(p.text(c2.Args[0])) == "&c.openStreams" {
+							if v, okv := p.intConst(c2.Args[1]); okv && v == -1 {
+								ok = true
+							}
+						}
+					})
+				}
+			}
+		}
+		r.check(ok, "stream slot returned when the request is resolved", p.pos(fd.Pos()), "if c.takeReq(stream) { openStreams-- }", "finish no longer gives the stream slot back exactly when it removed the request from the table: the connection runs out of streams after MAX_CONCURRENT_STREAMS requests, or counts below zero")
+	}
+	// 8. hasMore
+	if fd := p.decl("(*pendingBody).hasMore"); fd != nil {
+		e := singleReturn(fd)
+		c.expr("body owes octets iff buffered or stream not drained", e, fdeDomain{[]string{"len(pb.body)", "pb.stream!=nil", "pb.drained"}, [][]int64{seq(0, 2), {0, 1}, {0, 1}}}, nil, func(e fdeEnv) int64 {
+			return b2i(e["len(pb.body)"] > 0 || (e["pb.stream!=nil"] != 0 && e["pb.drained"] == 0))
+		}, "len(body) > 0 || (stream != nil && !drained)", "END_STREAM goes out with the chunk after which this is false; a one-octet remainder must still count")
+	}
+	// 9. send loop
+	if fd := p.decl("(*Conn).sendPending"); fd != nil {
+		cs := fdeCheck{p, r, p.pos(fd.Pos())}
+		var refillIf, idleIf *ast.IfStmt
+		mins := 0
+		floor := false
+		debit := 0
+		ast.Inspect(fd.Body, func(n ast.Node) bool {
+			switch x := n.(type) {
+			case *ast.IfStmt:
+				hasRefill := false
+				inspectCalls(x.Body, func(cl *ast.CallExpr) {
+					if p.calleeOf(cl) == "(*Conn).refillPending" {
+						hasRefill = true
+					}
+				})
+				if hasRefill && refillIf == nil && strings.Contains(p.text(x.Cond), "pb.body") {
+					refillIf = x
+				}
+				if mentionsIdent(x.Cond, "end") && mentionsIdent(x.Cond, "n") {
+					idleIf = x
+				}
+				// min idiom: if int(W) < n { n = int(W) }
+				if cmp, ok := p.canonCmp(x.Cond, nil); ok && cmp.Op == "le" && len(x.Body.List) == 1 {
+					if as, ok := x.Body.List[0].(*ast.AssignStmt); ok && p.text(as.Lhs[0]) == "n" {
+						w := p.ubKey(as.Rhs[0])
+						if (w == "pb.window" || w == "c.connWindow") && cmp.L.T["n"] == -1 {
+							mins++
+						}
+						if v, ok := p.intConst(as.Rhs[0]); ok && v == 0 && cmp.L.eq(Lin{T: map[string]int64{"n": 1}, C: 1}) {
+							floor = true
+						}
+					}
+				}
+			case *ast.AssignStmt:
+				if x.Tok == token.SUB_ASSIGN && p.ubKey(x.Rhs[0]) == "n" {
+					l := squash(p.text(x.Lhs[0]))
+					if l == "pb.window" || l == "c.connWindow" {
+						debit++
+					}
+				}
+			}
+			return true
+		})
+		if refillIf != nil {
+			cs.expr("refill only when nothing is buffered and the stream has more", refillIf.Cond, fdeDomain{[]string{"len(pb.body)", "pb.stream!=nil", "pb.drained"}, [][]int64{seq(0, 2), {0, 1}, {0, 1}}}, nil, func(e fdeEnv) int64 {
+				return b2i(e["len(pb.body)"] == 0 && e["pb.stream!=nil"] != 0 && e["pb.drained"] == 0)
+			}, "len(body) == 0 && stream != nil && !drained", "reading the next chunk while octets are still buffered overwrites them; not reading when empty stalls the body")
+		} else {
+			r.bad("refill only when nothing is buffered and the stream has more", cs.pos, "no refill step in sendPending")
+		}
+		r.check(mins == 2 && floor && debit == 2, "chunk is min(body, stream window, connection window), floored at 0, debited from both", cs.pos, "two min steps, n<0 -> 0, window -= n twice", fmt.Sprintf("the send loop's chunk size is no longer bounded by both windows (min steps %d), floored at zero (%v) and debited from both (%d): more DATA goes out than the server granted, or the windows drift", mins, floor, debit))
+		if idleIf != nil {
+			cs.expr("stop without sending only when nothing may go out and the body is unfinished", idleIf.Cond, fdeDomain{[]string{"n", "end"}, [][]int64{seq(0, 3), {0, 1}}}, nil, func(e fdeEnv) int64 { return b2i(e["n"] == 0 && e["end"] == 0) }, "n == 0 && !end", "a one-octet chunk must go out, and an empty last chunk must still carry END_STREAM")
+		} else {
+			r.bad("stop without sending only when nothing may go out and the body is unfinished", cs.pos, "no idle test in sendPending")
+		}
+	}
+	// 10. refill
+	if fd := p.decl("(*Conn).refillPending"); fd != nil {
+		cs := fdeCheck{p, r, p.pos(fd.Pos())}
+		var keepIf, sizeIf *ast.IfStmt
+		eofDrains := false
+		ast.Inspect(fd.Body, func(n ast.Node) bool {
+			switch x := n.(type) {
+			case *ast.IfStmt:
+				if mentionsIdent(x.Cond, "n") && keepIf == nil && !strings.Contains(p.text(x.Cond), "cap(") {
+					keepIf = x
+				}
+				if strings.Contains(p.text(x.Cond), "pb.size") {
+					sizeIf = x
+				}
+			case *ast.CaseClause:
+				if len(x.List) == 1 && squash(p.text(x.List[0])) == "errors.Is(err,io.EOF)" {
+					for _, s := range x.Body {
+						if as, ok := s.(*ast.AssignStmt); ok && squash(p.text(as.Lhs[0])) == "pb.drained" && p.text(as.Rhs[0]) == "true" {
+							eofDrains = true
+						}
+					}
+				}
+			}
+			return true
+		})
+		if keepIf != nil {
+			cs.expr("a chunk is kept whenever octets were read", keepIf.Cond, fdeDomain{[]string{"n"}, [][]int64{seq(0, 3)}}, nil, func(e fdeEnv) int64 { return b2i(e["n"] > 0) }, "n > 0", "a Read that returns one octet returned body data")
+			kept, counted := false, false
+			for _, s := range keepIf.Body.List {
+				if as, ok := s.(*ast.AssignStmt); ok {
+					if squash(p.text(as.Lhs[0])) == "pb.body" && squash(p.text(as.Rhs[0])) == "buf[:n]" {
+						kept = true
+					}
+					if squash(p.text(as.Lhs[0])) == "pb.read" && as.Tok == token.ADD_ASSIGN && p.ubKey(as.Rhs[0]) == "n" {
+						counted = true
+					}
+				}
+			}
+			r.check(kept && counted, "the chunk is exactly the octets read, and they are counted", p.pos(keepIf.Pos()), "pb.body = buf[:n]; pb.read += n", "refillPending no longer keeps exactly the n octets the Read returned and adds them to the running total")
+		} else {
+			r.bad("a chunk is kept whenever octets were read", cs.pos, "no `if n > 0` in refillPending")
+		}
+		if sizeIf != nil {
+			cs.expr("declared length reached ends the body", sizeIf.Cond, fdeDomain{[]string{"pb.size", "pb.read"}, [][]int64{{-1, 0, 1, 5}, {0, 1, 4, 5, 6}}}, nil, func(e fdeEnv) int64 { return b2i(e["pb.size"] >= 0 && e["pb.read"] >= e["pb.size"]) }, "size >= 0 && read >= size", "with a declared length the body is over when that many octets were read, EOF or not; an unknown length (-1) never ends it this way")
+		} else {
+			r.bad("declared length reached ends the body", cs.pos, "no test of the running total against the declared length")
+		}
+		r.check(eofDrains, "EOF ends the body", cs.pos, "case errors.Is(err, io.EOF): drained = true", "an EOF from the reader no longer marks the body finished: END_STREAM is never sent")
+	}
+	// 11. handshake
+	if fd := p.decl("(*Conn).doHandshake"); fd != nil {
+		credit := false
+		stores := map[string]string{}
+		acks, writes := 0, 0
+		inspectCalls(fd.Body, func(cl *ast.CallExpr) {
+			switch p.calleeOf(cl) {
+			case "Handshake":
+				if len(cl.Args) == 4 && p.linOf(cl.Args[3], nil).eq(Lin{T: map[string]int64{"c.maxWindow": 1}, C: -65535}) && squash(p.text(cl.Args[2])) == "&c.current" {
+					credit = true
+				}
+			case "(*Settings).SetAck":
+				if p.text(cl.Args[0]) == "true" {
+					acks++
+				}
+			case "(*FrameHeader).WriteTo":
+				writes++
+			}
+		})
+		ast.Inspect(fd.Body, func(n ast.Node) bool {
+			if as, ok := n.(*ast.AssignStmt); ok && len(as.Lhs) == 1 {
+				stores[squash(p.text(as.Lhs[0]))] = squash(p.text(as.Rhs[0]))
+			}
+			return true
+		})
+		r.check(credit, "handshake grants maxWindow - 65535 connection credit", p.pos(fd.Pos()), "Handshake(true, bw, &c.current, c.maxWindow-65535)", "the client's initial connection WINDOW_UPDATE is no longer maxWindow-65535: the window the server may use and the one the client accounts (starting at maxWindow) differ")
+		r.check(stores["c.streamWindow"] == "int32(c.serverS.MaxWindowSize())" && stores["c.maxStreams"] == "c.serverS.MaxConcurrentStreams()" && stores["c.maxFrameSize"] == "c.serverS.MaxFrameSize()", "server's first SETTINGS is applied", p.pos(fd.Pos()), "streamWindow, maxStreams, maxFrameSize from serverS", "the values of the server's first SETTINGS frame no longer reach the fields that enforce them (stream send window, stream limit, frame size)")
+		r.check(acks == 1 && writes == 1, "server's first SETTINGS is acknowledged once", p.pos(fd.Pos()), "one SETTINGS frame with ACK written", fmt.Sprintf("the handshake builds %d ACKs and writes %d frames in reply to the server's SETTINGS (one each expected)", acks, writes))
+	}
+	if fd := p.decl("NewConn"); fd != nil {
+		vals := map[string]int64{}
+		ast.Inspect(fd.Body, func(n ast.Node) bool {
+			switch x := n.(type) {
+			case *ast.KeyValueExpr:
+				k := p.text(x.Key)
+				if k == "maxWindow" || k == "currentWindow" {
+					if v, ok := p.intConst(x.Value); ok {
+						vals[k] = v
+					}
+				}
+			case *ast.CallExpr:
+				if p.calleeOf(x) == "(*Settings).SetMaxWindowSize" {
+					if v, ok := p.intConst(x.Args[0]); ok {
+						vals["advertised"] = v
+					}
+				}
+			}
+			return true
+		})
+		r.check(len(vals) == 3 && vals["maxWindow"] == vals["currentWindow"] && vals["maxWindow"] == vals["advertised"], "client advertises the window it accounts", p.pos(fd.Pos()), "maxWindow == currentWindow == SETTINGS_INITIAL_WINDOW_SIZE", fmt.Sprintf("the client's receive-window constants disagree (%v): what it advertises per stream and what its accounting starts from differ", vals))
+	}
+}
